@@ -153,6 +153,33 @@ CHECKS['C09'] = dict(
          'get_dimensionality transposes otherwise: known finding KF-D5a). uint32 wrap-around not modelled.',
     ref='§5 C09')
 
+CHECKS['C01'] = dict(
+    technique='Lean 4 theorems (wrapper state machine over any op history; grid theory shared with C09) + differential correspondence with an element-by-element coordinate-map oracle',
+    text=('Theorems (Usid/Properties/C01.lean): toggling is an involution; after ANY list of toggles interleaved with reads '
+          'the wrapper differs from the initial one only in its sort flag = initial flag xor parity of toggles; labels, '
+          'sizes and N-D form all read that one flag and the sorted labels/sizes are the file-order ones picked by the '
+          'same permutation the sorted form was transposed by. Grid facts used by the reshape (Usid/Properties/C09.lean): '
+          'the computed sort order has the true strides for every dimension of size > 1, for every storage permutation '
+          'and every tie-break. PARTIAL: the coordinate-map theorem for reshape_to_n_dims itself (element at the '
+          'ancillary indices of (r,c) equals main[r,c]) is not yet proved in Lean (plan in DESIGN.md); it is decided on '
+          'every generated dataset by the oracle, which checks EVERY element of every returned view, and the '
+          'statement-by-statement executable model is compared with the implementation (eager/lazy, HDF5 and in-memory '
+          'ancillaries, wrapper constructed with either flag and toggled).'),
+    note=COMMON_NOTE + 'numpy/dask reshape and transpose semantics assumed; np.argsort tie order among size-1 dimensions '
+         'is unspecified, so views are compared after transposing to file order. Known finding KF-D5a (more dimensions '
+         'than points).',
+    ref='§5 C01')
+CHECKS['C10'] = dict(
+    technique='Lean 4 theorems (refusal and shape theorems over the flattening model) + differential correspondence with round-trip oracle',
+    text=('Theorems (Usid/Properties/C10.lean): an element-count mismatch, or an axis-count mismatch not explained by a '
+          'single-point side, is refused with ValueError for every array and index matrices; anything returned has '
+          'shape (N, M). PARTIAL: the inverse theorems (flatten . reshape = id and back) are not yet proved in Lean; the '
+          'round trip is decided on every generated dataset by the oracle (h5py / numpy / dask ancillaries, dask data, '
+          'kept or squeezed size-1 axes, one-sided requests checked against the slowest-to-fastest convention) and the '
+          'executable model of reshape_from_n_dims (all three branches) is compared with the implementation.'),
+    note=COMMON_NOTE + 'numpy/dask transpose/reshape semantics assumed.',
+    ref='§5 C10')
+
 REASON_PENDING = 'check not built yet in this round (planned: Lean model + theorems + correspondence, see DESIGN.md §5)'
 
 
